@@ -9,7 +9,7 @@ verbatim copying are the declared rewrites (R1..R6), each of which states the
 exact real text it expects (whitespace-normalised) and is logged.
 
 Directives (one per line, `//@` first non-blank):
-  //@ REGION file=<path> fn=<name> [within="<item head>"] [fn_ordinal=n] (body | first="<lead>" last="<lead>"|END | loop=<n>)
+  //@ REGION file=<path> fn=<name> [within="<item head>"] [fn_ordinal=n] (body | first="<lead>"|after="<lead of the preceding statement>" last="<lead>"|END | loop=<n>)
   //@ SIG "<expected real signature, whitespace-normalised>"
   //@ COPY UNTIL "<lead>"            copy everything up to (excluding) the statement starting with <lead>
   //@ COPY UNTIL CLOSE               copy up to the end of the innermost block opened by HEAD
@@ -126,7 +126,10 @@ class Builder:
             else:
                 self.cur, self.end = a, e
         else:
-            a = self.src._find_line(kv["first"], o + 1, c, int(kv.get("first_ordinal", 0)))
+            if "after" in kv:
+                a = self.src.after_stmt(kv["after"], o + 1, c)
+            else:
+                a = self.src._find_line(kv["first"], o + 1, c, int(kv.get("first_ordinal", 0)))
             if kv["last"] == "END":
                 b = c
             else:
